@@ -462,10 +462,13 @@ func (m *Mint) MintTokens(mintTokensRequest nut04.PostMintBolt11Request) (cashu.
 			return nil
 		}()
 
-		// update mint quote to previous state if there was an error
+		// update mint quote to previous state if there was an error.
+		// This branch is only entered from the PAID state (mintQuote.State may
+		// already have been overwritten with ISSUED by the time of the error).
 		if err != nil {
-			if err := m.db.UpdateMintQuoteState(mintQuote.Id, mintQuote.State); err != nil {
-				return nil, err
+			if dberr := m.db.UpdateMintQuoteState(mintQuote.Id, nut04.Paid); dberr != nil {
+				errmsg := fmt.Sprintf("error restoring mint quote state: %v", dberr)
+				return nil, cashu.BuildCashuError(errmsg, cashu.DBErrCode)
 			}
 			return nil, err
 		}
